@@ -57,7 +57,7 @@ PAR_PARENT_CASE = {"config": {"id": "m", "initial": "out", "context": {"n": 0}, 
 
 
 def cases(tier, seed):
-    yield PAR_PARENT_CASE       # recorded input of KF-C11-parallel-parent-unvisited
+    yield PAR_PARENT_CASE       # regression input of the fixed defect (known_findings.json "fixed": C11 2e41f2b)
     yield from family(tier)
     n = 800 if tier == "quick" else 8000
     yield from M.gen_cases(seed * 86028121 + 9, n, max_nodes=8, features={"history": 0.7, "parallel": 0.35}, ev_len=6)
